@@ -27,6 +27,11 @@ type c13Case struct {
 	Vlan      uint16   `json:"vlan"`
 	IPOffs    []uint32 `json:"ip_offs"` // offsets of the configured IPs inside the subnet (sorted, gaps >= 2)
 	K         int      `json:"k"`       // number of requested ranges (0 = plain single IP)
+	// a second pool behind the same node subnet with its own mask/gateway/VLAN; odd ranges are taken from it
+	Second     bool   `json:"second"`
+	PrefixLen2 int    `json:"prefix_len2"`
+	GwOff2     uint32 `json:"gw_off2"`
+	Vlan2      uint16 `json:"vlan2"`
 	Kind      string   `json:"kind"`    // sts | dp
 	TwoNets   bool     `json:"two_nets"`
 }
@@ -60,6 +65,10 @@ func genC13() *rapid.Generator[c13Case] {
 			c.IPOffs = append(c.IPOffs, off)
 			off += 2
 		}
+		c.Second = c.K >= 2 && rapid.IntRange(0, 2).Draw(t, "second") > 0
+		c.PrefixLen2 = rapid.SampledFrom([]int{16, 20, 24, 27, 29}).Draw(t, "prefix2")
+		c.GwOff2 = uint32(rapid.IntRange(0, 7).Draw(t, "gw2"))
+		c.Vlan2 = uint16(rapid.IntRange(0, 4094).Draw(t, "vlan2"))
 		c.Kind = rapid.SampledFrom([]string{"sts", "dp"}).Draw(t, "kind")
 		c.TwoNets = rapid.Bool().Draw(t, "twoNets")
 		return c
@@ -75,10 +84,44 @@ func checkC13(c c13Case, r *vcore.Rec) *vcore.Failure {
 	for _, o := range c.IPOffs {
 		pool.Ranges = append(pool.Ranges, [2]uint32{c.Base + o, c.Base + o})
 	}
-	topo := ipamsim.Topo{Pools: []ipamsim.PoolT{pool}, Nodes: []ipamsim.NodeT{{Name: "n0", IP: "10.49.27.3"}}}
+	pools := []ipamsim.PoolT{pool}
+	// which pool the i-th requested range comes from, and its address
+	rangeIP := func(i int) (string, int) { return u32ip(c.Base + c.IPOffs[i]), 0 }
+	if c.Second {
+		base2 := uint32(0xC8000000) // 200.0.0.0, disjoint from the first pool's 11-99.x.x.x
+		p2 := ipamsim.PoolT{NodeSubnets: []string{"10.49.27.0/24"}, Subnet: fmt.Sprintf("%s/%d", u32ip(base2), c.PrefixLen2),
+			Gateway: u32ip(base2 + c.GwOff2), Vlan: c.Vlan2}
+		for i := 0; i < 4; i++ {
+			p2.Ranges = append(p2.Ranges, [2]uint32{base2 + uint32(i)*2, base2 + uint32(i)*2})
+		}
+		if base2 < c.Base {
+			pools = []ipamsim.PoolT{p2, pool}
+		} else {
+			pools = append(pools, p2)
+		}
+		rangeIP = func(i int) (string, int) {
+			if i%2 == 1 {
+				return u32ip(base2 + uint32(i/2)*2), 1
+			}
+			return u32ip(c.Base + c.IPOffs[i]), 0
+		}
+	}
+	poolOf := func(which int) ipamsim.PoolT {
+		if which == 0 {
+			return pool
+		}
+		for _, p := range pools {
+			if p.Subnet != pool.Subnet {
+				return p
+			}
+		}
+		return pool
+	}
+	topo := ipamsim.Topo{Pools: pools, Nodes: []ipamsim.NodeT{{Name: "n0", IP: "10.49.27.3"}}}
 	wl := ipamsim.WL{Kind: c.Kind, Name: "a0", Replicas: 2}
 	for i := 0; i < c.K; i++ {
-		wl.Ranges = append(wl.Ranges, []string{u32ip(c.Base + c.IPOffs[i])})
+		ip, _ := rangeIP(i)
+		wl.Ranges = append(wl.Ranges, []string{ip})
 	}
 	hc := &ipamsim.Case{Topo: topo, WLs: []ipamsim.WL{wl}}
 	x, err := ipamsim.NewExec(hc, &vcore.Rec{})
@@ -109,7 +152,7 @@ func checkC13(c c13Case, r *vcore.Rec) *vcore.Failure {
 		}
 	} else {
 		for i := 0; i < c.K; i++ {
-			ip := u32ip(c.Base + c.IPOffs[i])
+			ip, _ := rangeIP(i)
 			if store[ip].Key != pod.Key {
 				return vcore.Failf("c13:store", "range %d (%s) has no FloatingIP object keyed to the pod", i, ip)
 			}
@@ -163,14 +206,20 @@ func checkC13(c c13Case, r *vcore.Rec) *vcore.Failure {
 			}
 			ones, _ := r020.IP4.IP.Mask.Size()
 			gotIP := r020.IP4.IP.IP.String()
-			if gotIP != expectIPs[i] || ones != c.PrefixLen || !r020.IP4.Gateway.Equal(net.ParseIP(pool.Gateway)) || vlans[i] != c.Vlan {
+			which := 0
+			if c.K > 0 {
+				_, which = rangeIP(i)
+			}
+			ep := poolOf(which)
+			if gotIP != expectIPs[i] || ones != ep.MaskLen() || !r020.IP4.Gateway.Equal(net.ParseIP(ep.Gateway)) || vlans[i] != ep.Vlan {
 				return vcore.Failf("c13:mismatch", "network %s IP #%d: plugin configures %s/%d gw %s vlan %d, IPAM allocated %s/%d gw %s vlan %d "+
-					"(all allocated in order: %s)", rec.Network, i, gotIP, ones, r020.IP4.Gateway, vlans[i], expectIPs[i], c.PrefixLen, pool.Gateway,
-					c.Vlan, strings.Join(expectIPs, ","))
+					"(all allocated in order: %s)", rec.Network, i, gotIP, ones, r020.IP4.Gateway, vlans[i], expectIPs[i], ep.MaskLen(), ep.Gateway,
+					ep.Vlan, strings.Join(expectIPs, ","))
 			}
 		}
 	}
 	r.ClassIf(c.K >= 2, "k_ge_2")
+	r.ClassIf(c.Second, "ips_from_two_pools")
 	r.ClassIf(c.Vlan != 0, "vlan")
 	r.ClassIf(c.PrefixLen != 24, "mask_not_24")
 	if c.K >= 2 || c.Vlan != 0 || c.PrefixLen != 24 {
